@@ -168,7 +168,7 @@ func safeGet(ctx context.Context, st *nbs.NomsBlockStore, h hash.Hash) (c chunks
 func viewStore(ctx context.Context, dir string, u *Universe, opts nbs.JournalingStoreOptions, res *core.Result) storeView {
 	var v storeView
 	var warn int
-	st, err := nbs.NewLocalJournalingStoreWithOptions(ctx, "__DOLT__", dir, nbs.NewUnlimitedMemQuotaProvider(), false, func(error) { warn++ }, opts)
+	st, err := nbs.NewLocalJournalingStoreWithOptions(ctx, "__DOLT__", dir, nbs.NewUnlimitedMemQuotaProvider(), nbs.DsimMmapArchiveIndexes, func(error) { warn++ }, opts)
 	if err != nil {
 		v.openErr = firstLine(err)
 		return v
